@@ -192,6 +192,8 @@ def special_motion(rng, T, kind):
                      (transport rate cancels Earth rate; |lat| 52..78 so that the speed stays below 300 m/s)
       rest           a vehicle standing still with constant attitude (body rate = Earth rate only)
       steady         straight and level at constant velocity and attitude
+      polar          (not a vanishing quantity but the other end of 'any initial position') a start 10..170 km from a pole, passing it at a
+                     closest distance of >= 3 km: cos(lat) down to 5e-4, tan(lat) up to 2000, the level frame turning with the meridians
     """
     R = 6.4e6
     for _ in range(50):
@@ -210,6 +212,14 @@ def special_motion(rng, T, kind):
             lat0 = np.deg2rad(rng.uniform(-80, 80))
             p['lat'], p['lon'], p['alt'] = [float(lat0), 0.0], [float(lon0), 0.0], [alt0, 0.0]
             ra = 0.0
+        elif kind == 'polar':
+            sg = float(rng.choice([-1, 1]))
+            lat0 = np.deg2rad(sg * (rng.uniform(88.5, 89.9) if rng.random() < 0.4 else rng.uniform(89.4, 89.95)))
+            spd, hd = rng.uniform(0, 120), rng.uniform(0, 2 * np.pi)
+            p['lat'] = [float(lat0), float(spd * np.cos(hd) / R), [float(0.3 / 0.3 ** 2 / R), 0.3, float(rng.uniform(0, 6))]]
+            p['lon'] = [float(lon0), float(spd * np.sin(hd) / R / np.cos(lat0)), [float(0.3 / 0.4 ** 2 / R / np.cos(lat0)), 0.4, float(rng.uniform(0, 6))]]
+            p['alt'] = [alt0, float(rng.uniform(-1, 1)), [2.0, 0.3, 0.0]]
+            ra = float(rng.choice([0.0, 0.05, 0.4]))
         else:
             lat0 = np.deg2rad(rng.uniform(-75, 75))
             spd, hd = rng.uniform(5, 280), rng.uniform(0, 2 * np.pi)
@@ -221,7 +231,7 @@ def special_motion(rng, T, kind):
             p[c_] = [a0, 0.0] + ([[ra / 2 / 0.7, 0.7, float(rng.uniform(0, 6))]] if ra else [])
         m = Motion(p)
         ex = m.extremes(T)
-        if ex['lat_max'] <= 85 and ex['speed_max'] <= 320 and ex['pitch_max'] <= 88:
+        if ex['lat_max'] <= (89.97 if kind == 'polar' else 85) and ex['speed_max'] <= 320 and ex['pitch_max'] <= 88:
             return m, ex
     raise RuntimeError('could not draw an admissible special motion')
 
